@@ -28,6 +28,7 @@ import re
 import shutil
 import sys
 import tempfile
+import time
 import types
 
 import numpy as np
@@ -41,6 +42,10 @@ STEP_RE = re.compile(r"iter_(\d+)/plate_(\d+)")
 
 class Interrupt(BaseException):
     pass
+
+
+class Runaway(Exception):
+    """more pipeline launches than any terminating simulation of this size can make (or the wall-clock guard)"""
 
 
 def make_screen(path, n_plates, seed):
@@ -165,6 +170,7 @@ class Sim:
         self.limit = None
         self.active = False
         self.in_pipeline = False
+        self.deadline = time.time() + 120
         self.named = []           # directories the script named (and the harness removed)
         self.removed = []         # existing files / directories the script itself removed
         self.removed_completed = []   # ... that belonged to a completed step (also: named by the script and removed on its advice)
@@ -193,6 +199,9 @@ class Sim:
             self.removed_completed.append(rel)
 
     def pipeline(self, cmd, cwd=None, **kw):
+        # every loop that drives the real script is bounded: launches per simulation and wall clock
+        if len(self.emu.launches) >= 4 * (self.cfg["plates"] + self.cfg["B"]) + 10 + 4 * len(self.crashes) or time.time() > self.deadline:
+            raise Runaway()
         self.in_pipeline = True
         try:
             return self.emu.check_call(cmd, cwd=cwd)
@@ -218,6 +227,8 @@ class Sim:
             try:
                 mod.main()
                 self.status = "ok"
+            except Runaway:
+                self.status = "no-termination"
             except Exception as e:  # noqa
                 self.status = "failed:%s:%s" % (type(e).__name__, str(e)[:200])
             finally:
@@ -234,6 +245,8 @@ class Sim:
                 outcome = "again" if again else "halt"
             except Interrupt:
                 outcome = "crash"
+            except Runaway:
+                outcome = "no-termination"
             except RuntimeError as e:
                 m = NAMED_RE.search(str(e))
                 outcome = ("named", m.group(1)) if m else "failed:RuntimeError:" + str(e)[:200]
